@@ -1,6 +1,7 @@
 (* Extraction of the C14 models (number-kind selection and its decision table) for the correspondence check.
    ExtrOcamlBasic only; depends on model and spec files only. *)
 From Coq Require Import ExtrOcamlBasic.
-From Verif Require Import Base.GoInt Json.Ext Generated.JsonParseGen Json.Grammar Json.FlagsModel Json.FlagsSpec.
+From Verif Require Import Base.GoInt Json.Ext Generated.JsonParseGen Json.Grammar Json.FlagsModel Json.FlagsSpec Json.TreeModel Json.TreeFlagsModel.
 Extraction Language OCaml.
-Extraction "model_c14.ml" decode_number_literal num_spec g_number.
+Extraction "model_c14.ml" decode_number_literal num_spec g_number
+  jenc_f jdec_f jdec_fuel jwf ty_ok jzero jnorm small_maps sorted_ord rev_ord rot_ord.
